@@ -145,6 +145,7 @@ type Machine struct {
 	modelMemo    map[*Term]uint64
 	noModelGuide bool
 	decided      map[*Term]bool
+	sharedLog    []*Term
 }
 
 type classDef struct {
